@@ -29,6 +29,8 @@ def const(v):
         return ("num", Fraction(v))
     if isinstance(v, float):
         return ("num", Fraction(repr(v)))  # the decimal the source shows, e.g. 1.0e-8 -> 1/100000000
+    if isinstance(v, str):
+        return ("str", v)  # only meaningful inside branch conditions (option values)
     raise Unsupported("constant %r" % (v,))
 
 
@@ -208,7 +210,7 @@ def subst(e, m):
     t = e[0]
     if t == "var":
         return m.get(e[1], e)
-    if t in ("num", "none", "isnone"):
+    if t in ("num", "none", "isnone", "str", "equilib", "extfn", "bool"):
         return e
     if t == "bin":
         return ("bin", e[1], subst(e[2], m), subst(e[3], m))
@@ -310,6 +312,9 @@ def pr(e, mode):
         f = e[1]
         if f.startswith("ext_"):
             return "(%s %s)" % (f[4:], " ".join(pr(a, mode) for a in e[2]))
+        if f == "clip" and len(e[2]) == 3:
+            # numpy.clip(x, lo, hi) = minimum(maximum(x, lo), hi)
+            return "(min %s (max %s %s))" % (pr(e[2][2], mode), pr(e[2][1], mode), pr(e[2][0], mode))
         tab = REAL_FN if mode == "R" else FLOAT_FN
         if f not in tab:
             raise Unsupported("function %s in mode %s" % (f, mode))
@@ -328,6 +333,8 @@ def pr(e, mode):
         return "(%s).%d" % (pr(e[1], mode), e[2] + 1)
     if t == "rootof":
         return "root"
+    if t == "str":
+        return '"%s"' % e[1]
     if t == "isnone":
         return "(isNone %s)" % e[1]  # only ever printed into path tables, never into Lean definitions
     raise Unsupported("print " + t)
